@@ -79,6 +79,29 @@ def inject(r, rows, cfg, kind):
         size = {"name": cfg["maxn"], "prefix": cfg["maxp"], "datatype": cfg["maxd"]}[k]
         getattr(rows[i], k).id = size + r.choice([1, 2, 1000])
         return rows
+    if kind == "implicit_id_after_last_slot":
+        # an entry given the last slot of its table, then an entry with id 0 (= last + 1 = size + 1)
+        k = r.choice(["name", "prefix", "datatype"])
+        size = {"name": cfg["maxn"], "prefix": cfg["maxp"], "datatype": cfg["maxd"]}[k]
+        if size == 0 or not idx_stmt:
+            return None
+        cls = {"name": jelly.RdfNameEntry, "prefix": jelly.RdfPrefixEntry, "datatype": jelly.RdfDatatypeEntry}[k]
+        pos = r.choice([i + 1 for i in idx_stmt])
+        last = jelly.RdfStreamRow(**{k: cls(id=size, value="zz-last")})
+        nxt = jelly.RdfStreamRow(**{k: cls(id=0, value="zz-beyond")})
+        rows.insert(pos, last)
+        if r.random() < 0.5:
+            rows.insert(pos + 1, nxt)
+        else:
+            # the two entries in different places, nothing assigning in between for that table
+            later = [i for i in range(pos + 1, len(rows) + 1)]
+            j = later[0]
+            for i in range(pos + 1, len(rows)):
+                if rows[i].WhichOneof("row") == k:
+                    break
+                j = i + 1
+            rows.insert(j, nxt)
+        return rows
     if kind in ("id_out_of_range_ref", "unfilled_ref"):
         cands = [(i, f) for i in idx_stmt for f in iri_fields(stmt_of(rows[i]))]
         if not cands:
@@ -451,6 +474,25 @@ def audit_reply(rep: str) -> dict | None:
 def c19(ctx):
     out = []
     r = ctx.rng
+    # long runs of quads in one graph through the generic GRAPHS path: one graph start per run
+    for run_lens in ([300, 5], [2100, 3], [5000]) if ctx.quick else ([300, 5], [2100, 3], [5000], [20000, 2], [70000]):
+        g = genmod.Gen(r, nprefix=2, nname=5, ndt=1)
+        stmts = []
+        for gi, n in enumerate(run_lens):
+            gname = gs.IRI(f"http://g.org/{gi}")
+            for q in g.statements(n, 4, typed=False, quoted=False):
+                stmts.append(gs.Quad(q.s, q.p, q.o, gname))
+        cfg = Cfg(cls="G", logical=2, frame_size=250)
+        impl = fam_encode.impl_run(cfg, stmts, [], False, "stream_frames", {})
+        ctx.report.evaluations += 1
+        ctx.report.nontrivial.add(("long-runs", tuple(run_lens)))
+        if not impl["raised"]:
+            au = audit_reply(ctx.driver.ask("AU " + hx(fam_encode.delimited(impl["frames"]))))
+            if au is None or au["gstart"] or au["redundant"] or au["elision"] or au["zero"]:
+                out.append({"family": "EN", "entry": "stream_frames", "cfg": cfg.as_json(), "stmts": [f"{n} quads in graph {i}" for i, n in enumerate(run_lens)],
+                            "corresponds": True, "impl": "", "model": str(au),
+                            "property_violation": {"what": f"runs of {run_lens} consecutive quads per graph name: audit {au} (a graph start repeats the previous graph name, or an entry / term / id was sent needlessly)"},
+                            "signature": {}})
     for i in range(ctx.n(500, 10000)):
         rd = r.random() < 0.3
         if rd:
